@@ -26,7 +26,8 @@ pub enum CorruptSpec {
     /// 0 unknown code page, 1 flip reference width, 2 truncate header
     PoolHeader(u8),
     /// entry selector; kind 0 huge length, 1 zero refcount with text,
-    /// 2 refcount 0xffff, 3 spurious long-string escape, 4 length 0 live
+    /// 2 refcount 0xffff, 3 spurious long-string escape, 4 length 0 live, 5 free slot with a length,
+    /// 6 last record = first half of a long entry, 7 such a half entry appended
     PoolEntry(u32, u8),
     /// malformed property set (kind, argument)
     PropSet(u8, u32),
@@ -297,8 +298,24 @@ impl CorruptSpec {
                 if n == 0 {
                     return false;
                 }
-                let e = 4 + (*sel as usize % n) * 4;
-                match kind % 6 {
+                let mut e = 4 + (*sel as usize % n) * 4;
+                if kind % 8 >= 6 {
+                    // the very last record of the pool
+                    e = 4 + (n - 1) * 4;
+                }
+                match kind % 8 {
+                    6 => {
+                        // ... becomes the first half of a long-string entry whose second half is missing
+                        d[e..e + 2].copy_from_slice(&0u16.to_le_bytes());
+                        d[e + 2..e + 4].copy_from_slice(&1u16.to_le_bytes());
+                    }
+                    7 => {
+                        // ... is followed by such a half entry (and sometimes a stray byte)
+                        d.extend_from_slice(&[0, 0, 1 + (*sel % 3) as u8, 0]);
+                        if *sel % 5 == 0 {
+                            d.push(7);
+                        }
+                    }
                     5 => {
                         // a free slot whose length runs past the string data
                         d[e..e + 2].copy_from_slice(&0xfff0u16.to_le_bytes());
